@@ -1,1 +1,361 @@
-"""placeholder"""
+"""C02 - at most once, in order, unaltered, only subscribed topics (necessary structural conditions)."""
+
+from __future__ import annotations
+
+import ast
+import re
+
+from . import rule
+from .zmq import anchors, Z, ret_const, stmt_list_containing
+from .c01 import pm_paths, sync_region, RECVD_STORE
+from ..model import Unresolved, walk_scope, parent, enclosing_function, qualname
+from ..paths import U, Path, Evaluator
+from ..strtmpl import TemplateEval, tstartswith, show, lit
+from .. import q
+
+
+@rule('C02.R1', 'an older id is discarded before any store, and both callers of process_msg skip a discarded message without touching their expected id')
+def r1(rr, repo):
+    za = anchors(repo)
+    paths, _ = pm_paths(za)
+    rr.paths += len(paths)
+    n = 0
+    for p in paths:
+        if q.order(p, za.r_mid, za.pm_exp) == '<':
+            n += 1
+            isret, isconst, val = ret_const(p)
+            stores = [e for e in p.events if e.kind in ('store', 'augstore', 'del') and RECVD_STORE.search(e.term)] + \
+                [e for e in p.events if e.kind == 'call' and (e.term.endswith('.new_recv') or e.term.endswith('.init_recvd'))]
+            rr.ob('older id: return None, no store into any set', isret and isconst and val is None and not stores, za.mod,
+                  stores[0].node if stores else za.R_pm, witness=f'{p.pc_text()} => {p.outcome_text()}', key='older')
+    rr.floor('paths of process_msg for an older id', n, 1, za.mod, za.R_pm)
+    sync, slst, eph, elst = sync_region(za)
+    for call, lst, label in ((sync, slst, 'synchronized'), (eph, elst, 'ephemeral')):
+        ev = za.ev()
+        ps = ev.run(lst, za.start(za.R_once))
+        rr.paths += len(ps)
+        resterm = None
+        k = 0
+        for p in ps:
+            nones = [key for key, v in p.facts.items() if key.startswith('isnone(process_msg(') and v is True]
+            if not nones:
+                continue
+            k += 1
+            after = False
+            bad = []
+            for e in p.events:
+                if e.kind == 'call' and e.node is call:
+                    after = True
+                    continue
+                if after and (e.kind in ('store', 'augstore') and e.term.endswith('.min_recv_id') or e.kind == 'bind' and e.term == 'min_recv_id'):
+                    bad.append(e)
+            ok = not bad and p.outcome is not None and p.outcome[0] == 'continue'
+            rr.ob(f'{label} caller skips a discarded message (continue) and leaves its expected id alone', ok, za.mod,
+                  bad[0].node if bad else call, witness=f'{p.pc_text()} => {p.outcome_text()}', key=f'skip|{label}')
+        rr.floor(f'{label} caller: paths where process_msg returned None', k, 1, za.mod, call)
+
+
+@rule('C02.R2', 'receiver ids only grow: prev_id is stored only at construction and as the id of the set being returned; the expected id '
+                'is (re)bound only at entry and to the id of a message process_msg accepted')
+def r2(rr, repo):
+    za = anchors(repo)
+    stores = q.stores_to_attr(za.R_cls, 'prev_id')
+    n_init = n_ret = 0
+    for st, tgt in stores:
+        fn = enclosing_function(st)
+        if fn is za.R_init and isinstance(st, ast.Assign) and U(st.value) in ('MSG_ID_INITIAL_PREV', '-1'):
+            n_init += 1
+            rr.holds('prev_id initialised to the pre-initial id', za.mod, st, key='prev-init')
+        elif fn is za.R_recv and isinstance(st, ast.Assign) and isinstance(st.value, ast.Name):
+            # must be on a path that returns a set: the statement list also contains the `return (data, ZMQStateSend(..))`
+            _, lst, idx = stmt_list_containing(st)
+            rets = [s for s in lst[idx:] if isinstance(s, ast.Return) and isinstance(s.value, ast.Tuple)]
+            ok = bool(rets) and U(rets[0].value.elts[1].args[0]) == U(st.value) if rets and isinstance(rets[0].value.elts[1], ast.Call) and rets[0].value.elts[1].args else False
+            n_ret += 1
+            rr.ob('prev_id := the id of the set being returned', ok, za.mod, st, key='prev-return')
+        else:
+            rr.violated('unexpected store to prev_id (ids could rewind)', za.mod, st, key=f'prev-other|{qualname(st)}')
+    rr.floor('stores to ZMQReceiver.prev_id', n_init + n_ret, 2, za.mod, za.R_cls)
+    # binds of the shared expected id
+    sync, slst, _, _ = sync_region(za)
+    shared = sync.args[0].id
+    binds = []
+    for n in ast.walk(za.R_recv):
+        if isinstance(n, ast.Assign) and any(isinstance(t, ast.Name) and t.id == shared for t in n.targets):
+            binds.append(n)
+        elif isinstance(n, (ast.AugAssign, ast.NamedExpr)) and isinstance(n.target, ast.Name) and n.target.id == shared:
+            binds.append(n)
+    k = 0
+    for b in binds:
+        fn = enclosing_function(b)
+        if fn is za.R_recv and parent(b) is za.R_recv:
+            v = b.value
+            ok = isinstance(v, ast.IfExp) and 'prev_id + 1' in U(v.body) and U(v.orelse).endswith('.msg_id') and 'is None' in U(v.test)
+            k += 1
+            rr.ob('at entry the expected id is prev_id + 1 (or the id handed over by the coupled sender)', ok, za.mod, b, key='exp-entry')
+        elif fn is za.R_once and isinstance(b, ast.Assign) and b in slst:
+            ok = U(b.value) == za.r_mid and slst.index(b) > slst.index(q.enclosing_stmt(sync))
+            k += 1
+            rr.ob('inside recv_once the expected id is only raised to the id of the message just accepted, after process_msg', ok, za.mod, b, key='exp-adopt')
+        else:
+            rr.violated('unexpected rebinding of the expected id', za.mod, b, key=f'exp-other|{qualname(b)}')
+    rr.floor('bindings of the shared expected id', k, 2, za.mod, za.R_recv)
+
+
+def is_control_msg(term: ast.AST) -> bool | None:
+    """Does a send_multipart argument denote a control message (mid is a negative literal)?"""
+    mids = []
+    for n in ast.walk(term):
+        if isinstance(n, ast.Dict):
+            for k, v in zip(n.keys, n.values):
+                if k is not None and q.const_str(k) == 'mid':
+                    mids.append(v)
+    if not mids:
+        return None
+    ok, v = Evaluator.const_of(mids[0])
+    return ok and isinstance(v, int) and v < 0
+
+
+def maybe_paths(za):
+    return za.paths('maybe')
+
+
+def data_publishes(p: Path):
+    return [e for e in p.events if e.kind == 'call' and e.term.endswith('.send_multipart') and e.value is not None
+            and e.value.args and is_control_msg(e.value.args[0]) is False]
+
+
+@rule('C02.R3', 'publisher ids only grow and each publish consumes its id: every publishing path stores min_send_id = id + 1; '
+                'a send for an id already passed returns without publishing; the only other store is the guarded fast-forward')
+def r3(rr, repo):
+    za = anchors(repo)
+    paths = maybe_paths(za)
+    rr.paths += len(paths)
+    n = 0
+    for p in paths:
+        pubs = data_publishes(p)
+        if not pubs:
+            continue
+        n += 1
+        st = [e for e in p.events if e.kind == 'store' and e.term == 'self.min_send_id']
+        ok = bool(st) and st[-1].args[0] in ('msg_id + 1', '1 + msg_id') and p.events.index(st[-1]) > p.events.index(pubs[-1])
+        isret, isconst, val = ret_const(p)
+        rr.ob('a path that publishes data consumes the id (self.min_send_id = msg_id + 1) and reports success', ok and isret and isconst and val is True,
+              za.mod, pubs[-1].node, witness=f'{p.pc_text()} => {p.outcome_text()}', key='consume')
+    rr.floor('publishing paths of send_maybe', n, 1, za.mod, za.S_maybe)
+    # early return in send()
+    idx = next(i for i, s in enumerate(za.S_send.body) if isinstance(s, ast.FunctionDef))
+    ev = za.ev()
+    hp = ev.run(za.S_send.body[:idx])
+    rr.paths += len(hp)
+    param = q.func_params(za.S_send)[2]
+    k = 0
+    for p in hp:
+        if p.facts.get(f'isnone({param})') is False:
+            rel = q.order(p, f'{param}.msg_id', 'self.min_send_id')
+            if rel == '<':
+                k += 1
+                rr.ob('send() of an id the publisher already passed returns before any publish', p.outcome is not None and p.outcome[0] == 'return',
+                      za.mod, za.S_send, witness=f'{p.pc_text()} => {p.outcome_text()}', key='stale-send')
+            elif rel is None:
+                rr.violated('send() does not compare the requested id with min_send_id', za.mod, za.S_send, witness=p.pc_text(), key='stale-send-nocmp')
+    rr.floor('paths of send() for a stale id', k, 1, za.mod, za.S_send)
+    # all stores to min_send_id
+    allst = q.stores_to_attr(za.S_cls, 'min_send_id')
+    kinds = {}
+    for st, tgt in allst:
+        fn = enclosing_function(st)
+        kinds.setdefault(fn.name if fn else '?', []).append(st)
+    for name, sts in kinds.items():
+        if name not in ('__init__', za.S_maybe.name, za.S_poll.name):
+            for st in sts:
+                rr.violated('unexpected store to min_send_id', za.mod, st, key=f'minsend-other|{name}')
+    rr.floor('stores to min_send_id (init, consume, fast-forward)', len(allst), 3, za.mod, za.S_cls)
+    # fast-forward guard
+    pp = za.paths('poll')
+    rr.paths += len(pp)
+    k = 0
+    for p in pp:
+        for e in p.events:
+            if e.kind == 'store' and e.term == 'self.min_send_id':
+                k += 1
+                v = e.value
+                base = None
+                if isinstance(v, ast.BinOp) and isinstance(v.op, ast.Add) and isinstance(v.right, ast.Constant) and v.right.value == 1:
+                    base = U(v.left)
+                rel = q.order(p, base, 'msg_id') if base else None
+                ephs = [val for key, val in p.pc[:e.pc_len] if key.startswith('truthy(') and ('eph' in key)]
+                ok = base is not None and rel in ('=', '>') and bool(ephs) and ephs[-1] is False and f"{za.s_env}['mid']" in base.replace('"', "'") or \
+                    (base is not None and rel in ('=', '>') and bool(ephs) and ephs[-1] is False and 'mid' in base)
+                rr.ob('fast-forward: min_send_id = <requested id> + 1 only when the requested id >= the id being sent and the client is not ephemeral',
+                      ok, za.mod, e.node, witness=f'{p.pc_text(e.pc_len)} => {e!r}', key=f'ff|rel={rel}|eph={ephs[-1] if ephs else None}')
+                nxt = p.outcome
+                rr.ob('after a fast-forward the pending send is abandoned (poll_recv returns None)', nxt is not None and nxt[0] == 'return' and
+                      (nxt[1] is None or (isinstance(nxt[1], ast.Constant) and nxt[1].value is None)), za.mod, e.node, witness=p.outcome_text(), key='ff-return')
+    rr.floor('fast-forward stores reached in poll_recv', k, 1, za.mod, za.S_poll)
+
+
+@rule('C02.R4', 'assembly of the returned dict: every data[t] = frame uses the mapped topic, after the duplicate test raised for a clash, and skips missing frames')
+def r4(rr, repo):
+    za = anchors(repo)
+    loops = [n for n in walk_scope(za.R_recv) if isinstance(n, ast.For) and any(isinstance(s, ast.Assign) and any(isinstance(t, ast.Subscript) and U(t.value) == 'data' for t in s.targets) for s in ast.walk(n))]
+    loops = [l for l in loops if not any(q.inside(l, m) for m in loops)]
+    rr.floor('assembly loops in recv()', len(loops), 1, za.mod, za.R_recv)
+    for loop in loops:
+        ev = za.ev(unroll_for=1)
+        ps = ev.run([loop], za.start(za.R_once))
+        rr.paths += len(ps)
+        k = 0
+        for p in ps:
+            for e in p.events:
+                if e.kind == 'store' and e.term.startswith('data['):
+                    k += 1
+                    keyt = e.term[5:-1]
+                    mapped = '.topic_map.get(' in keyt or 'topic_map.get(' in keyt
+                    dup = p.facts.get(f'in({keyt}, data)')
+                    notnone = [v for kk, v in p.pc[:e.pc_len] if kk.startswith('isnone(') and '__elem__' in kk]
+                    rr.ob('stored under the subscription-mapped topic name', mapped, za.mod, e.node, witness=keyt, key='mapped')
+                    rr.ob('stored only after the duplicate-destination test failed', dup is False, za.mod, e.node, witness=p.pc_text(e.pc_len), key='dup-test')
+                    rr.ob('missing (None) frames are skipped', bool(notnone) and notnone[-1] is False, za.mod, e.node, witness=p.pc_text(e.pc_len), key='none-skip')
+            dups = [kk for kk, v in p.facts.items() if kk.startswith('in(') and kk.endswith(', data)') and v is True]
+            if dups:
+                rr.ob('a duplicate destination topic raises', p.outcome is not None and p.outcome[0] == 'raise', za.mod, loop, witness=p.pc_text(), key='dup-raise')
+        rr.floor('stores data[t] = frame', k, 1, za.mod, loop)
+
+
+def publisher_templates(za):
+    """Templates of the first frame of a data message for hidden / normal topics, and of control messages."""
+    paths = maybe_paths(za)
+    out = {}
+    node = None
+    for p in paths:
+        for e in data_publishes(p):
+            a0 = e.value.args[0]
+            if not isinstance(a0, ast.List) or not a0.elts:
+                continue
+            first = a0.elts[0]
+            loops = [x for x in p.events if x.kind == 'for' and x.term.endswith('.items()')]
+            if U(first) in ("b'//'", "'//'"):
+                out.setdefault('control', set()).add((('lit', '//'),))
+                continue
+            if not loops:
+                continue
+            sym = f'__elem__({loops[-1].term})[0]'
+            node = e.node
+            for hidden in (True, False):
+                te = TemplateEval(za.consts, {sym: 'T'}, hidden)
+                out.setdefault('hidden' if hidden else 'normal', set()).add(te.one(first))
+    return out, node, len(paths)
+
+
+@rule('C02.R5', 'wire encoding of topic names agrees between publisher (send_maybe), subscriber prefix (Sender.__init__) and decoder (recv_once)')
+def r5(rr, repo):
+    za = anchors(repo)
+    pub, pnode, npaths = publisher_templates(za)
+    rr.paths += npaths
+    for case in ('hidden', 'normal', 'control'):
+        if len(pub.get(case, ())) != 1:
+            raise Unresolved(f'{Z}: publisher topic frame template for case {case}: {pub.get(case)}')
+    P = {k: next(iter(v)) for k, v in pub.items()}
+    rr.note('publisher: ' + ', '.join(f'{k}: {show(v)}' for k, v in P.items()))
+    rr.ob("publisher frames a normal topic as delim + T + delim", P['normal'] == (('lit', '/'), ('sym', 'T'), ('lit', '/')), za.mod, pnode, witness=show(P['normal']), key='pub-normal')
+    rr.ob("publisher frames a hidden ('_') topic as T + delim (no leading delimiter, so subscribe-all does not see it)", P['hidden'] == (('sym', 'T'), ('lit', '/')), za.mod, pnode, witness=show(P['hidden']), key='pub-hidden')
+    # subscriber
+    ps = za.paths('rs_init')
+    rr.paths += len(ps)
+    subs = {}   # kind -> set of templates
+    nodes = {}
+    for p in ps:
+        for e in p.events:
+            if e.kind == 'call' and e.term.endswith('.setsockopt_string') and e.args and e.args[0].endswith('SUBSCRIBE'):
+                arg = e.value.args[1]
+                pc = dict(p.pc[:e.pc_len])
+                sym = [a for a in (U(x) for x in ast.walk(arg)) if a.startswith('__elem__(') and a.endswith('[0]')]
+                if sym:
+                    s = sorted(sym, key=len)[0]
+                    for hidden in (True, False):
+                        te = TemplateEval(za.consts, {s: 'T'}, hidden)
+                        subs.setdefault(('explicit', hidden), set()).add(te.one(arg))
+                        nodes[('explicit', hidden)] = e.node
+                else:
+                    te = TemplateEval(za.consts, {}, False)
+                    for labels, t in te.alts(arg):
+                        none = pc.get('isnone(topics)')
+                        contradicted = False
+                        for lt, lv in labels:
+                            if lt.endswith(' is None'):
+                                known = pc.get(f'isnone({lt[:-8]})')
+                                if known is not None and known != lv:
+                                    contradicted = True
+                                elif lt[:-8] == 'topics':
+                                    none = lv
+                        if contradicted:
+                            continue
+                        kind = 'all' if none is True else 'star' if (none is False and any(k.startswith('eq(') and "'*'" in k and v is True for k, v in pc.items())) else 'explicit-control' if none is False else 'unknown'
+                        subs.setdefault((kind, None), set()).add(t)
+                        nodes[(kind, None)] = e.node
+    rr.note('subscriber: ' + ', '.join(f'{k}: {[show(t) for t in v]}' for k, v in subs.items()))
+    for need in (('explicit', True), ('explicit', False), ('all', None), ('star', None), ('explicit-control', None)):
+        if len(subs.get(need, ())) != 1:
+            rr.unresolved(f'subscriber prefix for {need}: expected exactly one template, got {[show(t) for t in subs.get(need, ())]}', za.mod, za.RS_init, key=f'sub-missing|{need}')
+            return
+    if ('unknown', None) in subs:
+        rr.unresolved('a SUBSCRIBE whose subscription kind could not be classified', za.mod, nodes[('unknown', None)], key='sub-unknown')
+    S = {k: next(iter(v)) for k, v in subs.items()}
+    rr.ob('explicit subscription prefix of a hidden topic equals the published frame (trailing delimiter: `main` cannot match `main2`)',
+          S[('explicit', True)] == P['hidden'], za.mod, nodes[('explicit', True)], witness=f"{show(S[('explicit', True)])} vs {show(P['hidden'])}", key='sub-explicit-hidden')
+    rr.ob('explicit subscription prefix of a normal topic equals the published frame', S[('explicit', False)] == P['normal'], za.mod, nodes[('explicit', False)],
+          witness=f"{show(S[('explicit', False)])} vs {show(P['normal'])}", key='sub-explicit-normal')
+    a = S[('all', None)]
+    te = TemplateEval(za.consts, {}, True)
+    rr.ob('subscribe-all prefix matches every normal topic and the control frame', tstartswith(P['normal'], a) is True and tstartswith(P['control'], a) is True, za.mod, nodes[('all', None)], witness=show(a), key='sub-all-normal')
+    hid = TemplateEval(za.consts, {}, True).startswith(P['hidden'], ''.join(v for _, v in a)) if all(k == 'lit' for k, _ in a) else None
+    rr.ob('subscribe-all prefix never matches a hidden topic', hid is False, za.mod, nodes[('all', None)], witness=f'{show(a)} vs {show(P["hidden"])}', key='sub-all-hidden')
+    rr.ob("'*' subscription is the empty prefix (everything)", S[('star', None)] == (), za.mod, nodes[('star', None)], witness=show(S[('star', None)]), key='sub-star')
+    rr.ob('an explicit subscription also subscribes the control frame (topic lists, HELLO/CLOSE/OOB, heartbeats for empty sets)',
+          tstartswith(P['control'], S[('explicit-control', None)]) is True and len(S[('explicit-control', None)]) > 0 and
+          tstartswith(P['normal'], S[('explicit-control', None)]) is not True, za.mod, nodes[('explicit-control', None)], witness=show(S[('explicit-control', None)]), key='sub-control')
+    # decoder
+    topic_arg = None
+    for c in q.attr_calls(za.R_pm, 'new_recv') + q.attr_calls(za.R_pm, 'init_recvd'):
+        if len(c.args) >= 2 and isinstance(c.args[1], ast.Name):
+            topic_arg = c.args[1].id
+    if topic_arg is None:
+        raise Unresolved(f'{Z}: cannot tell which local of recv_once holds the decoded topic')
+    dec = [n for n in walk_scope(za.R_once) if isinstance(n, ast.Assign) and any(isinstance(t, ast.Name) and t.id == topic_arg for t in n.targets)]
+    rr.floor('decoder assignments of the topic', len(dec), 1, za.mod, za.R_once)
+    for d in dec:
+        for case, want in (('hidden', (('sym', 'T'),)), ('normal', (('sym', 'T'),)), ('control', ())):
+            te = TemplateEval(za.consts, {}, case == 'hidden')
+            te.env['msg[0]'] = P[case]
+            try:
+                got = te.one(d.value)
+            except Unresolved as exc:
+                rr.unresolved(f'decoder: {exc}', za.mod, d, key=f'dec|{case}')
+                continue
+            rr.ob(f'decoder maps the {case} frame back to {show(want)}', got == want, za.mod, d, witness=f'{show(P[case])} -> {show(got)}', key=f'dec|{case}')
+
+
+@rule('C02.R6', "hidden '_' topics are excluded from subscribe-all sets and included only for '*'; nothing else widens a subscription")
+def r6(rr, repo):
+    za = anchors(repo)
+    ps = za.paths('rs_init')
+    rr.paths += len(ps)
+    seen = {}
+    for p in ps:
+        for e in p.events:
+            if e.kind == 'store' and e.term == 'self.init_recvd' and isinstance(e.value, ast.Lambda):
+                body = e.value.body
+                filt = isinstance(body, ast.DictComp) and any('startswith' in U(i) and "'_'" in U(i) and isinstance(i, ast.UnaryOp) for g in body.generators for i in g.ifs)
+                pc = dict(p.pc[:e.pc_len])
+                star = any(k.startswith('eq(') and "'*'" in k and v is True for k, v in pc.items()) and pc.get('isnone(topics)') is False
+                seen[(filt, star)] = e
+                if not filt:
+                    rr.ob("the unfiltered (hidden-including) set builder is installed only for the '*' subscription", star, za.mod, e.node, witness=p.pc_text(e.pc_len), key='unfiltered')
+                else:
+                    rr.holds("default set builder drops topics starting with '_'", za.mod, e.node, key='filtered')
+    rr.floor('filtered and unfiltered set builders', len({k[0] for k in seen}), 2, za.mod, za.RS_init)
+    subs = [c for c in q.attr_calls(za.R_cls, 'setsockopt_string') + q.attr_calls(za.R_cls, 'setsockopt') if c.args and U(c.args[0]).endswith('SUBSCRIBE')]
+    for c in subs:
+        rr.ob('subscriptions are only made while constructing a source', enclosing_function(c) is za.RS_init, za.mod, c, key='subscribe-site')
+    rr.floor('SUBSCRIBE sites', len(subs), 3, za.mod, za.RS_init)
